@@ -163,7 +163,7 @@ Theorem image_decodes_empty o ts im0 bs t im fold : builder_range o -> ts < 4294
   Abs.g_clusters (geom_of b) = total /\ Abs.g_bits (geom_of b) = bits_per_fat_entry t /\
   Abs.v_root v = [] /\ Abs.v_root_issues v = [] /\ Abs.v_labels v = expected_labels o /\
   Abs.v_root_chain v = (if sp_is32 t then Some [2] else None) /\
-  (t = Format.Fat32 -> Abs.v_fsinfo_free v = total - 1 /\ Abs.v_fsinfo_next v = 3) /\
+  (t = Format.Fat32 -> Abs.v_fsinfo_free v = Abs.count_free (Abs.parse_geom im) im /\ Abs.v_fsinfo_next v = 3) /\
   Abs.count_free (Abs.parse_geom im) im = (if sp_is32 t then total - 1 else total) - bad_range_clusters total /\
   Wf.wf_issues fold im = [].
 Proof.
@@ -243,14 +243,16 @@ Proof.
   split; [exact Hpg|]. split; [exact Hcl|]. split; [exact Hbits|].
   unfold v. rewrite Habs. cbn [Abs.v_root Abs.v_root_issues Abs.v_labels Abs.v_root_chain Abs.v_fsinfo_free Abs.v_fsinfo_next].
   split; [reflexivity|]. split; [reflexivity|]. split; [reflexivity|]. split; [reflexivity|].
+  assert (Abs.count_free (Abs.parse_geom im) im =
+          count_spec fstore (val_ft (to_fat_type t)) (fi_fat_store im b) 2 (N.to_nat total)) as Hcf.
+  { rewrite Hpg. unfold Abs.count_free. rewrite Hcl.
+    apply (count_free_from_cnt (geom_of b) im (val_ft (to_fat_type t) (fi_fat_store im b))).
+    intros x Hx. apply Hconv. lia. }
   split.
   { intros E32. destruct (Hfsi E32) as (_ & _ & W1 & W2 & _). rewrite Hbits, E32. cbn [bits_per_fat_entry N.eqb Pos.eqb].
-    change (Abs.g_fsinfo_sector (geom_of b) * Abs.g_bps (geom_of b)) with (fi_fsinfo_pos b). split; assumption. }
-  split.
-  { rewrite Hpg. unfold Abs.count_free. rewrite Hcl.
-    rewrite (count_free_from_cnt (geom_of b) im (val_ft (to_fat_type t) (fi_fat_store im b))).
-    - exact Hcount.
-    - intros x Hx. apply Hconv. lia. }
+    change (Abs.g_fsinfo_sector (geom_of b) * Abs.g_bps (geom_of b)) with (fi_fsinfo_pos b).
+    split; [rewrite Hcf; exact W1|exact W2]. }
+  split; [rewrite Hcf; exact Hcount|].
   (* no well-formedness issue *)
   unfold Wf.wf_issues. rewrite Habs.
   cbn [Abs.v_geom Abs.v_root_chain Abs.v_root Abs.v_root_issues]. rewrite Hbits.
